@@ -144,6 +144,20 @@ def run(ck: Check):
     ck.extra["not_compared"] = "PerLoopTransferCost.max_hops (not named by the property)"
 
 
+def _known_signatures():
+    out = {}
+    d = os.path.join(os.path.dirname(os.path.dirname(os.path.abspath(__file__))), "known_findings.d")
+    files = [os.path.join(os.path.dirname(d), "known_findings.json")]
+    if os.path.isdir(d):
+        files += [os.path.join(d, f) for f in sorted(os.listdir(d)) if f.endswith(".json")]
+    for fn in files:
+        if os.path.exists(fn):
+            for f in json.load(open(fn)).get("findings", []):
+                if f.get("property") == "C30" and f.get("status") == "open":
+                    out[f["signature"]] = f.get("what", "")
+    return out
+
+
 def replay(path):
     rec = json.load(open(path))
     c = rec["case"]
@@ -152,7 +166,14 @@ def replay(path):
     print("implementation: total_cost=%s max_traffic=%s" % (tc, mt))
     print("route enumeration (TLC): total_hops=%s max_traffic=%s"
           % (rec["expected_total_hops"], rec["expected_max_traffic"]))
-    if frac(tc) != rec["expected_total_hops"] or frac(mt) != rec["expected_max_traffic"]:
+    bad_h = frac(tc) != rec["expected_total_hops"]
+    bad_t = frac(mt) != rec["expected_max_traffic"]
+    if bad_h or bad_t:
+        sig = _signature(dict(c, max_traffic=rec["expected_max_traffic"]), bad_h, bad_t, frac(mt))
+        known = _known_signatures()
+        if sig in known:
+            print("KNOWN-FINDING: property=C30 %s [signature=%s]" % (known[sig], sig))
+            return 0
         print("VIOLATION property=C30 replay=%s" % path)
         return 1
     print("no disagreement on this case")
